@@ -1,41 +1,71 @@
 #!/usr/bin/env python3
-"""Applies every seeded change (seeded/<id>/patch.diff) to a scratch copy of /repo's working tree under
-.work/scratch, runs all 18 rule sets on it (one extraction), prints which checks report a new violation,
-and compares with meta.json's breaks_property. Never touches /repo."""
+"""Re-runs every seeded change: the tree of the seed's base commit (meta.json base_commit, default 2928bef) is
+materialised under .work/scratch with `git archive`, the patch applied, all 18 rule sets run (one extraction).
+Violations already present in the unpatched base tree are subtracted, so what is printed is what the *change*
+introduces. Never touches /repo's working tree."""
 import glob, json, os, shutil, subprocess, sys, uuid
 V = os.path.dirname(os.path.dirname(os.path.abspath(__file__)))
 sys.path.insert(0, os.path.join(V, "rules"))
 import engine
+ALL = ["C%02d" % i for i in range(1, 19)]
 only = sys.argv[1:]
+_base_cache = {}
+
+
+def materialise(commit):
+    sc = os.path.join(engine.WORK, "scratch", "seedbase-%s-%s" % (commit, uuid.uuid4().hex[:6]))
+    os.makedirs(sc, exist_ok=True)
+    p1 = subprocess.Popen(["git", "-C", engine.REPO, "archive", commit], stdout=subprocess.PIPE)
+    subprocess.check_call(["tar", "-x", "-C", sc], stdin=p1.stdout)
+    p1.wait()
+    return sc
+
+
+def violations(d):
+    facts = engine.extract(d)
+    out = {}
+    for p in ALL:
+        obl, new, listed = engine.run_property(p, "quick", facts_path=facts, quiet=True, write_evidence=False)
+        if new:
+            out[p] = {o["key"] for o in new}
+    os.remove(facts)
+    return out
+
+
+def base_violations(commit):
+    if commit not in _base_cache:
+        sc = materialise(commit)
+        try:
+            _base_cache[commit] = violations(sc)
+        finally:
+            shutil.rmtree(sc, ignore_errors=True)
+    return _base_cache[commit]
+
+
 missed = []
 for d in sorted(glob.glob(os.path.join(V, "seeded", "*"))):
     sid = os.path.basename(d)
     if only and not any(o in sid for o in only):
         continue
     meta = json.load(open(os.path.join(d, "meta.json")))
-    sc = os.path.join(engine.WORK, "scratch", "seed-%s-%s" % (sid, uuid.uuid4().hex[:6]))
-    os.makedirs(os.path.dirname(sc), exist_ok=True)
-    subprocess.check_call(["rsync", "-a", "--exclude", "target", "--exclude", ".git", engine.REPO + "/", sc + "/"])
+    base = meta.get("base_commit", "2928bef")
+    sc = materialise(base)
     r = subprocess.run(["patch", "-p1", "-s", "-i", os.path.join(d, "patch.diff")], cwd=sc, stdout=subprocess.PIPE, stderr=subprocess.STDOUT, text=True)
     if r.returncode != 0:
-        print("%-50s patch does not apply: %s" % (sid, r.stdout[-200:]))
+        print("%-52s patch does not apply on %s: %s" % (sid, base, r.stdout[-200:]))
         shutil.rmtree(sc, ignore_errors=True)
         continue
     try:
-        facts = engine.extract(sc)
-        caught = {}
-        for p in ["C%02d" % i for i in range(1, 19)]:
-            obl, new, listed = engine.run_property(p, "quick", facts_path=facts, quiet=True, write_evidence=False)
-            if new:
-                caught[p] = [o["key"] for o in new]
-        os.remove(facts)
+        got = violations(sc)
     finally:
         shutil.rmtree(sc, ignore_errors=True)
+    basev = base_violations(base)
+    caught = {p: sorted(ks - basev.get(p, set())) for p, ks in got.items() if ks - basev.get(p, set())}
     target = meta["breaks_property"]
     status = "caught by its own property" if target in caught else ("MISSED by %s" % target)
     if target not in caught:
         missed.append(sid)
-    print("%-50s %s; all: %s" % (sid, status, {k: len(v) for k, v in caught.items()}))
+    print("%-52s [base %s] %s; all: %s" % (sid, base, status, {k: len(v) for k, v in caught.items()}))
     for k in caught.get(target, [])[:3]:
         print("        %s" % k)
 sys.exit(1 if missed else 0)
